@@ -60,6 +60,7 @@ func c08Configs(t *rapid.T) []c08Config {
 		{name: "client[m.k1]", client: []model.ClientIndex{{Columns: []model.ColumnKey{ck("m", "k1")}}}},
 		{name: "client[m.k1,s1]", client: []model.ClientIndex{{Columns: []model.ColumnKey{ck("m", "k1"), ck("s1", nil)}}}},
 		{name: "client[m.k1,m.k2]", client: []model.ClientIndex{{Columns: []model.ColumnKey{ck("m", "k1"), ck("m", "k2")}}}},
+		{name: "client[s1,set]", client: []model.ClientIndex{{Columns: []model.ColumnKey{ck("s1", nil), ck("set", nil)}}}},
 		{name: "schema[s0]+client[s2]+[e,opt]", schema: [][]string{{"s0"}}, client: []model.ClientIndex{{Columns: []model.ColumnKey{ck("s2", nil)}}, {Columns: []model.ColumnKey{ck("e", nil), ck("opt", nil)}}}},
 	}
 	perm := rapid.Permutation(all[1:]).Draw(t, "configs")
